@@ -98,4 +98,9 @@ Definition nfc_with (s : list N) : list N := compose (reorder (decompose s)).
 
 End WithTabs.
 
+(** NFC as UAX #15 defines it.  golang.org/x/text/unicode/norm computes this function except on two kinds of
+    exotic text, where it deviates from the standard (both recorded as findings against property C15, see
+    DESIGN.md): it inserts U+034F after 30 consecutive non-starters ("stream-safe" output), and its composition
+    pass does not treat a backward-combining character of class 0 (U+09BE, Hangul V/T jamo, ...) as a starter
+    that blocks later marks. *)
 Definition nfc (s : list N) : list N := let T := the_tabs in nfc_with T s.
